@@ -139,6 +139,39 @@ def _expr_to_blackbird(expr):
     return res
 
 
+def _populate(v, values):
+    """Replaces the free parameters inside an array or a list by their values.
+
+    Args:
+        v: a NumPy array, or a (possibly nested) list, that may contain SymPy expressions
+        values (dict[str, Number]): the value of each free parameter
+
+    Returns:
+        a copy of ``v`` with every expression evaluated
+    """
+    if isinstance(v, sym.Expr):
+        par = list(v.free_symbols)
+        func = sym.lambdify(par, v)
+
+        try:
+            vals = {str(p): values[str(p)] for p in par}
+        except KeyError:
+            raise ValueError("Invalid value for free parameter provided")
+
+        return func(**vals)
+
+    if isinstance(v, np.ndarray) and v.dtype == object:
+        populated = copy.deepcopy(v)
+        for idx in np.ndindex(v.shape):
+            populated[idx] = _populate(v[idx], values)
+        return populated
+
+    if isinstance(v, list):
+        return [_populate(i, values) for i in v]
+
+    return v
+
+
 class BlackbirdProgram:
     """Python representation of a Blackbird program."""
 
@@ -306,6 +339,10 @@ class BlackbirdProgram:
 
                     op['args'][idx] = func(**vals)
 
+                elif isinstance(a, (np.ndarray, list)):
+                    # the parameters may be inside an array or a list
+                    op['args'][idx] = _populate(a, kwargs)
+
             for k, v in op['kwargs'].items():
                 if isinstance(v, sym.Expr):
                     par = list(v.free_symbols)
@@ -317,6 +354,10 @@ class BlackbirdProgram:
                         raise ValueError("Invalid value for free parameter provided")
 
                     op['kwargs'][k] = func(**vals)
+
+                elif isinstance(v, (np.ndarray, list)):
+                    # the parameters may be inside an array or a list
+                    op['kwargs'][k] = _populate(v, kwargs)
 
         # set values for variables and arrays
         for k, v in prog._var.items(): # pylint: disable=protected-access
